@@ -38,7 +38,7 @@ func toVInfo(i file.Info) vInfo {
 var evilPieces = []string{
 	"\n", "\r", "\x1b[31m", "\x00", "\x07", "\x08", "\t", "\x7f", "\x1f", "\u0085", "\u009b", "\u0080", "\u009f",
 	"\x9b", "\x80", "\xff", "\xc2", "\xe2\x82", "\\", "\\n", " ", "  ", "é", "€", "\U0001F600", "�", " ",
-	"\n  Forged: yes", "\r\n", "a", "Key ID", ": ", "x", "Ā", "\xc2\x80", "\xed\xa0\x80", "\xf4\x90\x80\x80", "\xc0\x80",
+	"\n  Forged: yes", "\r\n", "a", "%[1]c", "%s", "%d", "%!s(MISSING)", "%%", "%[2]*[1]d", "%c", "%10s", "%x", "Key ID", ": ", "x", "Ā", "\xc2\x80", "\xed\xa0\x80", "\xf4\x90\x80\x80", "\xc0\x80",
 }
 
 func evilString(r *Rng) string {
@@ -143,6 +143,9 @@ func genC20(c *Ctx) {
 		file.Info{Description: "d", Attributes: []file.Attribute{{Name: "n\r", Value: "v\u0085w"}}, Children: []file.Info{{Description: "\x9bc"}}},
 		file.Info{Description: "", Attributes: []file.Attribute{{Name: "", Value: ""}}},
 		file.Info{Description: "\\x0a"},
+		// content must never be used as a format string: at depth 5 the indentation is 10 = LF
+		file.Info{Description: "%[1]c", Children: []file.Info{{Description: "%[1]cX: y", Attributes: []file.Attribute{{Name: "%[1]c%s", Value: "%d%[1]c"}},
+			Children: []file.Info{{Description: "%c", Children: []file.Info{{Description: "%[1]c", Children: []file.Info{{Description: "%[1]c", Children: []file.Info{{Description: "%[1]cForged: yes"}}}}}}}}}}},
 	)
 	// every C0, DEL and C1 at start, middle and end
 	for b := 0; b < 0xa0; b++ {
